@@ -209,8 +209,28 @@ func genCase(r *rand.Rand, size int) scase {
 			}
 		}
 		locals(2)
-		if shape == "cstream" && r.Intn(2) == 0 {
+		if shape == "cstream" && r.Intn(6) == 0 {
+			// the handler answers (SendAndClose), perhaps touches metadata, and then returns an ERROR:
+			// the client must be given the error, never the response
 			srv = append(srv, "M"+msg())
+			locals(2)
+			c.Fin = genFin(r)
+			for c.Fin == "OK" {
+				c.Fin = genFin(r)
+			}
+			if r.Intn(3) == 0 {
+				cli = append(cli, "h")
+			}
+			cli = append(cli, "r")
+			if r.Intn(2) == 0 {
+				cli = append(cli, "r")
+			}
+			tail(r, &cli, false)
+		} else if shape == "cstream" && r.Intn(2) == 0 {
+			srv = append(srv, "M"+msg())
+			if r.Intn(3) == 0 {
+				locals(2) // metadata calls after the response, before the OK return
+			}
 			c.Fin = "OK"
 			if r.Intn(3) == 0 {
 				cli = append(cli, "h")
@@ -323,6 +343,9 @@ func basicCases() []scase {
 		{"cstream", "-", "R,R,M7", "OK", "s1,c,r,r,h,t"},
 		{"cstream", "-", "R,R,Ta=1", "E3:e0", "s1,c,r,h,t"},
 		{"cstream", "-", "R,R", "OK", "s1,x,r"},
+		{"cstream", "-", "R,R,M7", "E9:e0", "s1,c,r,r,h,t"},               // response, then an error
+		{"cstream", "-", "R,R,Ha=1,M7,Tb=1,Hc=1", "Pboom", "s1,c,r,h,t"}, // same with metadata around the response
+		{"cstream", "-", "R,R,M7,Tb=1", "OK", "s1,c,r,r,h,t"},            // trailer set after the response
 		{"bidi", "-", "R,M1,R,M2,R", "OK", "s1,r,s2,r,c,r,t"},
 		{"bidi", "-", "Sa=1,R,Hb=1,M1", "OK", "h,s1,r,h,r,h,t"},
 		{"bidi", "-", "Ha=1,Tb=1", "E5:e0", "r,h,t"},
